@@ -239,6 +239,22 @@ def _x26_loop(ctx, run, f):
         else:
             run.holds("RF-DOM", key, "the `< 0` edge of vbi_unham24p in the X/26 loop leaves the loop (no later triplet of the packet "
                       "is stored)", loc)
+        # continuity: the packet is appended only when the triplets collected so far are exactly those of the
+        # designations before it (count == 13 x designation); `<=` also admits a packet whose predecessor was lost
+        ats = atoms.dominating_atoms(f, head)
+        cont = [a for a in ats if a.R is not None and any(x.endswith(".num_triplets") for x in (a.L.fields | a.R.fields))
+                and (a.L.const is None and a.R.const is None)]
+        key = "RF-CMP:vbi_decode_teletext:x26-continuity"
+        if any(a.rel == "==" for a in cont):
+            run.holds("RF-CMP", key, "the X/26 triplet loop is entered only under `%s`" % [a for a in cont if a.rel == "=="][0], loc)
+        elif cont:
+            run.violation("RF-CMP", key, "the X/26 triplet loop is entered under `%s`, not under equality of the triplet count and "
+                          "13 x designation: a packet whose predecessor was lost is appended right behind the last good packet and "
+                          "its column triplets are applied to the wrong row" % cont[0], loc,
+                          witness={"function": f.name, "guard": repr(cont[0])})
+        else:
+            run.violation("RF-CMP", key, "the X/26 triplet loop is entered without comparing the triplet count with the packet's "
+                          "designation: packets are appended out of sequence", loc)
     run.floor("X/26 triplet loops", found, 1)
 
 
